@@ -50,6 +50,7 @@ BoolC = _prim("a boolean", "bool", "BoolMethod")
 @contract(f"{M}:FloatMethod.deserialize", props=["C01", "C02", "C03"])
 class FloatDeserialize:
     raises = ["ValidationError"]
+    exports = ["C01: on JSON-like data, returns iff the datum is a number (float, or an integer that fits a float), never a boolean", "C01: image is a float: the datum itself, or the float of the integer"]
 
     def requires(self, c):
         return [isinst(c.self, "FloatMethod")]
@@ -72,6 +73,7 @@ def _constrained(method_cls, base_cls, klass):
     @contract(f"{M}:{method_cls}.deserialize", props=["C01", "C02", "C03"])
     class _C:
         raises = ["ValidationError"]
+        exports = ["C01: on JSON-like data, returns iff the datum has the class and every constraint holds of the (converted) value", "C01: image is the (converted) datum"]
 
         def requires(self, c):
             return [isinst(c.self, method_cls), isinst(c.attr0(c.self, "constraints"), "tuple")]
